@@ -7,6 +7,7 @@ package main
 // C lines (model: coq/theories/Msg/PresenceModel.v via ocaml/fam_pres.ml):
 //   haspres <label> <syn> <lbl> <oneof> <p3opt> <msg> <ext> <ismap> <islazy> <chain...> | HasPresence usePresence canBeLazy schema-card
 //   bitmap  <flavour> <nwords> <ops...>                                       | query results..., words...
+//   go_bitmap <flavour> <nwords> <base> <ops...>                              | query results..., words..., LoadPresenceCache  (Tier T: Gen/PresenceGo.v)
 //   hist    <label> <class> <kind> <ops...>                                   | Has after every op
 //   ohist   <label> <nwords> <fieldflags> <ops...>                            | Has after every op, raw XXX_presence words
 //   enc     <label> <class> <num> <val|->                                     | wire bytes
@@ -61,6 +62,9 @@ func presSetPresentUnatomic(p presPtr, num uint32, size uint32)
 
 //go:linkname presClearPresent google.golang.org/protobuf/internal/impl.presence.ClearPresent
 func presClearPresent(p presPtr, num uint32)
+
+//go:linkname presLoadPresenceCache google.golang.org/protobuf/internal/impl.presence.LoadPresenceCache
+func presLoadPresenceCache(p presPtr) uint32
 
 // ---------------------------------------------------------------- bitmap
 
@@ -134,6 +138,15 @@ func presBitmapCase(c *Ctx, flavour string, nwords int, ops []string) {
 		}
 	}
 	c.Case("pres", "bitmap", append([]string{flavour, HexN(uint64(nwords))}, ops...), obs)
+	// Tier T: the same observations, recomputed by the Gallina translation of presence.go (Gen/PresenceGo.v)
+	// over a heap at a made-up base address (real addresses are not observable; the theorems are for every
+	// base address): mostly a typical Go heap address, sometimes the very top of the address space.
+	gbase := uint64(0xc000010000) + 4*uint64(len(ops)*7+nwords)
+	if len(ops)%5 == 0 {
+		gbase = -uint64(4 * nwords) // base + 4*nwords = 2^64
+	}
+	gobs := append(append([]string{}, obs...), HexN(uint64(presLoadPresenceCache(base))))
+	c.Case("pres", "go_bitmap", append([]string{flavour, HexN(uint64(nwords)), HexN(gbase)}, ops...), gobs)
 }
 
 func presBitmapCorpus(c *Ctx) {
